@@ -127,3 +127,46 @@ Section Eq.
     unfold v1_seal_keys, aes_ctr, aes256_ctr, ctr_w_rustcrypto, take, drop. rewrite <- ?app_assoc. reflexivity.
   Qed.
 End Eq.
+
+(* ---- every blob the SPECIFICATION produces unwraps to the wrapped key on the backends of its version (the
+        round-trip theorems composed with model = specification): interoperability in the direction
+        "someone else's conforming implementation wrapped it" ---- *)
+Section SpecBlobsUnwrap.
+  Variable O : oracle.
+  Hypothesis L : laws O.
+
+  Theorem spec_pieA_blob_unwraps ver header wk ptk n :
+    length n = 32 -> pie_unwrap (pieA O ver 128) header wk (spec_pieA O (ver ++ header) wk ptk n) = Ok ptk.
+  Proof.
+    intros Hn.
+    destruct (pie_roundtrip (pieA O ver 128) (pieA_ks_len O L ver 128) (pieA_mac_len O L ver 128) header wk ptk n Hn)
+      as (blob & Hw & Hu & _).
+    rewrite pieA_is_spec in Hw. injection Hw as <-. exact Hu.
+  Qed.
+
+  Theorem spec_pieB_blob_unwraps ver header wk ptk n :
+    length n = 32 -> pie_unwrap (pieB O ver) header wk (spec_pieB O (ver ++ header) wk ptk n) = Ok ptk.
+  Proof.
+    intros Hn.
+    destruct (pie_roundtrip (pieB O ver) (pieB_ks_len O L ver) (pieB_mac_len O L ver) header wk ptk n Hn)
+      as (blob & Hw & Hu & _).
+    rewrite pieB_is_spec in Hw. injection Hw as <-. exact Hu.
+  Qed.
+
+  (* PBKDF2 family (k1, k3; z = true is aws-lc, which refuses the iteration count 0) *)
+  Theorem spec_pwA_blob_unwraps ver z header pw ptk s i n :
+    (i < 2 ^ 32)%N -> (z = false \/ i <> 0%N) -> length s = 32 -> length n = 16 ->
+    pw_unwrap (pwA O ver 128 z) header pw (spec_pwA O (ver ++ header) pw ptk s i n) = Ok ptk.
+  Proof.
+    intros Hi Hz Ls Ln.
+    assert (Hpre : exists pre, pw_prekey (pwA O ver 128 z) pw s (be_bytes 4 i) = Ok pre).
+    { destruct z; [|apply pwA_prekey_total'].
+      destruct Hz as [Hz|Hz]; [discriminate|].
+      apply pwA_prekey_total. rewrite be_val_be_bytes. change (256 ^ N.of_nat 4)%N with (2 ^ 32)%N.
+      rewrite N.mod_small by exact Hi. exact Hz. }
+    destruct Hpre as (pre & Hpre).
+    destruct (pw_roundtrip (pwA O ver 128 z) (pwA_ks_len O L ver 128 z) (pwA_mac_len O L ver 128 z)
+                header pw (be_bytes 4 i) ptk s n pre Ls (be_bytes_length 4 i) Ln Hpre) as (blob & Hw & Hu & _).
+    rewrite (pwA_is_spec O ver z header pw ptk s i n Hi Hz) in Hw. injection Hw as <-. exact Hu.
+  Qed.
+End SpecBlobsUnwrap.
